@@ -235,4 +235,20 @@ def runRemove (force : Bool) (cwd : String) (selectors : List String) (inv : Inv
     let (ev, inv') := applyRemovals (removeActions records) (!force) inv
     ⟨ev ++ (if force then [] else [Event.passF]), inv', none⟩
 
+/-! ### the rest of the index directory
+
+Entries that are not shards (`*.zoekt`) or their `.meta` sidecars: temporary files of a killed or concurrently running
+build (`<shard>.<random>.tmp`), a lock file, anything else that lies there. The commands never name them; the only
+thing that happens outside the shard set is that `-f` takes the directory lock (`acquireDirectoryLock`:
+`os.OpenFile(O_CREATE|O_RDWR)` on `.zoekt-local-sync.lock`, before discovery, whatever happens later). -/
+
+abbrev Others := List String
+
+def lockName : String := ".zoekt-local-sync.lock"
+
+def takeLock (o : Others) : Others := if lockName ∈ o then o else o ++ [lockName]
+
+/-- the other entries after `sync` / `remove` (with or without `-f`) -/
+def othersAfter (force : Bool) (o : Others) : Others := if force then takeLock o else o
+
 end ZoektModel.C33
